@@ -116,6 +116,8 @@ public:
     usize requiredCapacity = size + oldSize;
     if(buffer && _capacity >= requiredCapacity)
     {
+      if(data >= bufferStart && data < bufferEnd)
+        data += (buffer + size) - bufferStart; // data lies in this buffer and moves with it
       Memory::move(buffer + size, bufferStart, oldSize);
       Memory::copy(buffer, data, size);
       bufferStart = buffer;
